@@ -584,16 +584,12 @@ func listPageInner(ctx context.Context, tx *bolt.Tx, prefix string, after string
 	var keys []string
 
 	prefixBytes := []byte(prefix)
-	seekPrefix := []byte(filepath.Join(prefix, after))
-	if after == "" {
-		seekPrefix = prefixBytes
-	} else if !bytes.HasPrefix(seekPrefix, prefixBytes) {
-		// filepath.Join has the very unfortunate behavior of trimming the
-		// trailing slash when after=".". When e.g., prefix=foo/, this gives
-		// us seekPrefix=foo, which fails the initial HasPrefix check,
-		// skipping all results.
-		seekPrefix = prefixBytes
-	}
+
+	// Seek to prefix+after: every key sorting before it yields an entry that
+	// is <= after. Do not use filepath.Join here; it normalizes the result
+	// (".", "..", "//"), which moves the seek position past entries that
+	// still sort after 'after' or outside of the prefix entirely.
+	seekPrefix := []byte(prefix + after)
 
 	// Assume bucket exists and has keys
 	c := tx.Bucket(dataBucketName).Cursor()
